@@ -358,40 +358,24 @@ func c01Levels(c *Ctx) {
 		}
 		c.Check(m[ti] == ae, key, rule, w.Pos(e.Pos()), fmt.Sprintf("Enforcement[%q] = %q, want %q", ti, m[ti], ae))
 	}
-	// the custom level: every MapUpdate into a map that becomes the Enforcement of the returned level
-	// is cut by key != TypeIntegrity, except the copy loop from the base level.
-	fn := w.Method("verifier/trustpolicy", "SignatureVerification", "GetVerificationLevel")
-	if fn == nil {
-		c.Unk("levels/custom/integrity-not-overridable", "anchor: (*SignatureVerification).GetVerificationLevel", "-", "method not found")
-		return
-	}
-	fi := w.Info(fn)
-	c.SeenFn(fn.String())
-	rule := "effect-site gate: a store of an override action into the custom enforcement map is reachable only through type != TypeIntegrity"
-	n := 0
-	for _, b := range fn.Blocks {
-		for _, in := range b.Instrs {
-			mu, ok := in.(*ssa.MapUpdate)
-			if !ok {
-				continue
-			}
-			kd, vd := desc(mu.Key), desc(mu.Value)
-			if strings.Contains(kd, ".Enforcement)") && strings.Contains(vd, ".Enforcement)") {
-				continue // copy of the base level: rangekey/rangeval over <base>.Enforcement
-			}
-			n++
-			g := fi.GuardsOf(mu)
-			c.Evals++
-			_, ok1 := hasLabel(g, "NE(", kd, fmt.Sprintf("const:%q", ti))
-			if ok1 {
-				c.OK("levels/custom/integrity-not-overridable", rule, w.InstrPos(mu))
-			} else {
-				c.Bad("levels/custom/integrity-not-overridable", rule, w.InstrPos(mu), "the store of "+vd+" under key "+kd+" is reachable with key == TypeIntegrity; guards: "+summarizeLabels(g, 10))
+	// the custom level: a store of an override action is reachable only through type != TypeIntegrity. This is C02's
+	// `custom/integrity`, which follows the store into setters, constructors and helper-applied overrides (the first
+	// formulation here looked for the MapUpdate in GetVerificationLevel itself and raised false alarms on C02's benign
+	// variants — cross-property sweep, DESIGN 8.8); it is re-decided on the same world and recorded under C01's key.
+	{
+		sub := NewCtx(w, "C02", c.Tier)
+		runC02(sub)
+		c.Evals += sub.Evals
+		found := false
+		for _, o := range sub.Obls {
+			if o.Key == "C02/custom/integrity" {
+				found = true
+				c.add(&Obligation{Key: "levels/custom/integrity-not-overridable", Rule: o.Rule + " [rule of C02]", Status: o.Status, Site: o.Site, Detail: o.Detail, Path: o.Path})
 			}
 		}
-	}
-	if n == 0 {
-		c.Unk("levels/custom/integrity-not-overridable", rule, w.FnPos(fn), "no override store found in GetVerificationLevel")
+		if !found {
+			c.Unk("levels/custom/integrity-not-overridable", "anchor: the override store of the custom level (C02 custom/integrity)", "-", "the rule of C02 produced no obligation")
+		}
 	}
 	_ = token.NoPos
 }
